@@ -31,6 +31,10 @@ type childCfg struct {
 	Lanes int `json:"lanes"`
 	Start int `json:"start"` // lane-local case index to start from
 	K     int `json:"k"`     // strings per position
+	// Concurrent > 0: that many goroutines, each with a reader of its own, walk the positions at the same time
+	// (request rendering shares process-wide helpers; what one request's string becomes must not depend on
+	// what other requests render at that moment)
+	Concurrent int `json:"concurrent,omitempty"`
 }
 
 // caseRef is the replayable description of one (position, string) pair.
@@ -151,6 +155,17 @@ func Main(c *run.Ctx) {
 		}(l)
 	}
 	wg.Wait()
+	// the same pairs, several requests in flight at once
+	if out := c.RunChild(run.ChildSpec{Prop: "C10", Name: "concurrent", Cfg: childCfg{Lanes: 1, K: c.Pick(3, 12), Concurrent: 6}, Timeout: 20 * time.Minute}); !out.Completed {
+		head, frame := run.PanicHead(out.Stderr)
+		if out.TimedOut {
+			c.Undecided("concurrent lane: child watchdog expired")
+		} else {
+			c.Cover("reader process died (C12 material)", "concurrent lane "+head+" "+frame, 1)
+			c.Undecided("concurrent lane: child ended early")
+		}
+	}
+	c.Floor("pairs evaluated with six requests in flight", 200, 0)
 	for _, p := range ps {
 		c.Floor("evaluated:"+p.name, 1, 0)
 		if !p.restricted && !p.silent && p.name != "tempo.tags.whole" && p.name != "prof.selector.whole" {
@@ -277,6 +292,27 @@ func Child(c *run.Ctx, name string) {
 		panic(err)
 	}
 	ps := positions()
+	if cfg.Concurrent > 0 {
+		var wg sync.WaitGroup
+		for g := 0; g < cfg.Concurrent; g++ {
+			wg.Add(1)
+			e := &env{c: c, rig: newRig(), benign: map[benignKey]*benignVal{}, minis: map[string]int{}, known: map[string][]knownSig{}}
+			go func(g int, e *env) {
+				defer wg.Done()
+				for k := 0; k < cfg.K; k++ {
+					for pi := g; pi < len(ps); pi += cfg.Concurrent {
+						p := ps[pi]
+						s := stringFor(c, p, 1000+k)
+						v := variantFor(c, pi, 1000+k)
+						e.pair(p, s, 1000+k, v, caseRef{Position: p.name, Ordinal: 1000 + k, Variant: v, String: fmt.Sprintf("%q", clipq(s)), Len: len(s)})
+						c.Floor("pairs evaluated with six requests in flight", 0, 1)
+					}
+				}
+			}(g, e)
+		}
+		wg.Wait()
+		return
+	}
 	mine := lanePositions(len(ps), cfg.Lane, cfg.Lanes)
 	e := &env{c: c, rig: newRig(), benign: map[benignKey]*benignVal{}, minis: map[string]int{}, known: map[string][]knownSig{}}
 	n := len(mine) * cfg.K
